@@ -219,6 +219,8 @@ static int32_t mus2mid_writevarlen(int32_t value, uint8_t *out)
 }
 
 #define MUS_READ_INT16(b) ((b)[0] | ((b)[1] << 8))
+/* the score must still hold n bytes */
+#define MUS_NEED(n) if ((size_t)(end - cur) < (size_t)(n)) goto _end
 #define MUS_READ_INT32(b) ((b)[0] | ((b)[1] << 8) | ((b)[2] << 16) | ((b)[3] << 24))
 
 static int Convert_mus2midi(uint8_t *in, uint32_t insize,
@@ -352,23 +354,29 @@ static int Convert_mus2midi(uint8_t *in, uint32_t insize,
         switch ((event & 122) >> 4){
             case MUSEVENT_KEYOFF:
                 status |=  0x80;
+                MUS_NEED(1);
                 bit1 = *cur++;
                 bit2 = 0x40;
                 break;
             case MUSEVENT_KEYON:
                 status |= 0x90;
+                MUS_NEED(1);
                 bit1 = *cur & 127;
-                if (*cur++ & 128)   /* volume bit? */
+                if (*cur++ & 128) { /* volume bit? */
+                    MUS_NEED(1);
                     channel_volume[channelMap[channel]] = *cur++;
+                }
                 bit2 = channel_volume[channelMap[channel]];
                 break;
             case MUSEVENT_PITCHWHEEL:
                 status |= 0xE0;
+                MUS_NEED(1);
                 bit1 = (*cur & 1) >> 6;
                 bit2 = (*cur++ >> 1) & 127;
                 break;
             case MUSEVENT_CHANNELMODE:
                 status |= 0xB0;
+                MUS_NEED(2);
                 if (*cur >= sizeof(mus_midimap) / sizeof(mus_midimap[0])) {
                     /*_WM_ERROR_NEW("%s:%i: can't map %u to midi",
                                   __FUNCTION__, __LINE__, *cur);*/
@@ -378,6 +386,7 @@ static int Convert_mus2midi(uint8_t *in, uint32_t insize,
                 bit2 = (*cur++ == 12) ? header.channels + 1 : 0x00;
                 break;
             case MUSEVENT_CONTROLLERCHANGE:
+                MUS_NEED(2);
                 if (*cur == 0) {
                     cur++;
                     status |= 0xC0;
@@ -432,6 +441,7 @@ static int Convert_mus2midi(uint8_t *in, uint32_t insize,
         if (event & 128) {
             delta_time = 0;
             do {
+                MUS_NEED(1);
                 delta_time = (int32_t)((delta_time * 128 + (*cur & 127)) * (140.0 / (double)frequency));
             } while ((*cur++ & 128));
         } else {
